@@ -57,7 +57,7 @@ def units(bins, tier, seed):
         else:
             add("shm", 1, seg, 1000, 1, "shm")
             add("cycles", 1, seg, 500, 1, "cycles")
-    add("long", 1, 512, 30 if not thorough else 150, 3 if not thorough else 4, "long")     # the segment size is generated per case
+    add("long", 1, 512, 30 if not thorough else 75, 3 if not thorough else 8, "long")     # the segment size is generated per case
     # one unit of each kind first (the evidence keeps the samples of the first units)
     first = [u for u in us if u.name.endswith("-0") and ("s512" in u.name or "lru" in u.name)]
     first = [u for u in us if ".long" in u.name] + [u for u in first if ".long" not in u.name]   # the long runs are the slowest units
@@ -66,7 +66,7 @@ def units(bins, tier, seed):
 
 def floor(tier):
     if tier == "thorough":
-        return {"lru": 7 * 50000, "shm": 6 * 10000, "cycles": 3 * 4000, "long": 4 * 150}
+        return {"lru": 7 * 50000, "shm": 6 * 10000, "cycles": 3 * 4000, "long": 8 * 75}
     return {"lru": 6 * 3000, "shm": 3 * 1000, "cycles": 3 * 500, "long": 3 * 30}
 
 
